@@ -22,6 +22,8 @@ for d in sorted(glob.glob("/verif/seeded/C??" + ("" if rnd == "1" else "-" + rnd
     verdict = ("caught (`%s`)" % sig) if own.get("exit") == 1 else "MISSED"
     if m.get("first_attempt"):
         verdict += " - after strengthening"
+    if m.get("out_of_domain"):
+        verdict = "not caught: outside the documented input domain (see notes)"
 
     def cell(t):
         return " ".join(str(t).split()).replace("|", "/")[:230]
